@@ -263,7 +263,7 @@ def main():
             "guard": "kanata_verif",
             "enable": "RUSTFLAGS --cfg kanata_verif via harness/.cargo/config.toml (the harness builds /repo as a path dependency)",
             "baseline_off_cmd": "cd /repo && cargo test --workspace --no-fail-fast --offline",
-            "source_commits": ["823cc88"],
+            "source_commits": ["823cc88", "98e5b50"],
             "add_only": True,
         },
         "engines": [
